@@ -153,6 +153,9 @@ def Mon.observe (m : Mon) (ws : List String) (fields : List (String × String)) 
   let fails0 := match fields.lookup "dirty" with
     | some d => if d != "0" then fails0 ++ [("C10", s!"{d} heap slice(s) still hold plaintext key material after the call")] else fails0
     | none => fails0
+  let fails0 := match fields.lookup "log" with
+    | some "leak" => fails0 ++ [("C03", "a debug log line written during the operation contains plaintext key material or the payload")]
+    | _ => fails0
   let (m, fails0) := match sec with
     | [_, _, _, multi, aac] =>
       let f := if multi > m.multi then fails0 ++ [("C09", "a secret was closed more than once")] else fails0
